@@ -26,6 +26,8 @@ MAP = [
     ("R17.1", "", "cfa2232", "assemble_rtf: a figure document with a colour table as non-first input lost the colour table's opening line; stray '}' closed the document early"),
     ("R06.4", "", "a2e5cbf", "page break restated A4 as \\paperw11908 (int) while the document start wrote \\paperw11909 (round)"),
     ("R16.4", "", "a2e5cbf", "figure goal size truncated: 2.3 in -> \\picwgoal3311 instead of 3312"),
+    ("R07.1", "", "c29211d", "bottom table edge: non-final pages with a paragraph footnote/source got no rtf_body.border_last; a table footnote placed 'first' on a one-page document left rtf_page.border_last on the data row"),
+    ("R08.2", "", "31447c0", "automatic column header kept full-table widths after page_by/subline_by column removal (3000/6000 vs 4500/9000 twips)"),
     ("R06.1", "subline", "2167c5e", "figure documents showed the subline on the first page only, ignoring page_title"),
 ]
 tmp = tempfile.mkdtemp(prefix="verif-fixed-")
